@@ -17,6 +17,7 @@ import (
 	"fmt"
 	"math"
 	"os"
+	"runtime"
 	"sort"
 	"strconv"
 	"strings"
@@ -671,6 +672,17 @@ func wireCopy(h *EH) *EH {
 
 var curTier = "quick"
 
+// firstDiff returns the first line of b that does not occur at the same position in a.
+func firstDiff(a, b string) string {
+	la, lb := strings.Split(a, "\n"), strings.Split(b, "\n")
+	for i, l := range lb {
+		if i >= len(la) || la[i] != l {
+			return l
+		}
+	}
+	return "(same lines)"
+}
+
 func caseArtefact(id caseID, h *EH, extra map[string]any) map[string]any {
 	m := map[string]any{"case": id, "tier": curTier}
 	for k, v := range extra {
@@ -709,6 +721,21 @@ func TestVerifC16(t *testing.T) {
 	var chains []*chain
 	for _, cfg := range chainCfgs(rep.Tier) {
 		chains = append(chains, buildChain(cfg))
+	}
+
+	// ---- history stage first: what a byte string decodes to must not depend on earlier (rejected) decodes
+	histReps := 4
+	if thorough {
+		histReps = 16
+	}
+	histTotals := map[string]any{}
+	var histPairs, histDecodes int64
+	for _, ch := range chains {
+		hs := runHistory(ch, histReps, nil, func(sig, what string, replay any) { rep.Violation(sig, what, replay) })
+		histPairs += hs.pairs
+		histDecodes += hs.decodes
+		histTotals[ch.cfg.Name] = map[string]any{"ordered_pairs(d1,d2)": hs.pairs, "repetitions_each": hs.repetitions, "d1_rejected": hs.d1Rejected, "d1_accepted": hs.d1Accepted,
+			"d2_byte_strings": hs.d2Fresh, "d2_fresh_outcomes": hs.freshObs, "decodes": hs.decodes}
 	}
 
 	sh := &shared{distinct: map[string]struct{}{}, msgByBlk: map[string]msgEntry{}, wireSeen: map[string]struct{}{}, samples: map[string]any{}}
@@ -846,37 +873,10 @@ func TestVerifC16(t *testing.T) {
 		items = re
 	}
 
-	// ---- determinism self-check: the same cases evaluated twice give identical observations
-	{
-		st := newStats()
-		for _, ch := range chains[:1] {
-			tr := make([]*EH, len(ch.honest))
-			for i, h := range ch.honest {
-				tr[i] = wireCopy(h)
-			}
-			c := &mctx{ch: ch, idx: 0, nbs: neighbours(ch, 0)}
-			for n, o := range primaries(c) {
-				if n%7 != 0 {
-					continue
-				}
-				var obs [2]string
-				for k := 0; k < 2; k++ {
-					h, ok := applyOps(ch.honest[0], o)
-					if !ok {
-						continue
-					}
-					var sb strings.Builder
-					ec := &evalCtx{st: st, trusted: tr, honFP: fingerprint(ch.honest[0]), summary: &sb}
-					evaluate(ec, caseID{Chain: ch.cfg.Name, Idx: 0, Ops: []string{o.name}, Repair: "none"}, h, nil)
-					obs[k] = sb.String()
-				}
-				if obs[0] != obs[1] {
-					rep.Infra("NONDETERMINISM: operator " + o.name + " observed differently on two executions")
-					t.Fatalf("nondeterminism:\n%s\n---\n%s", obs[0], obs[1])
-				}
-			}
-		}
-	}
+	// ---- determinism self-check: the same case evaluated twice in a row, and once more in isolation, gives
+	// identical observations. A difference that isolated runs do not show among themselves is not harness
+	// nondeterminism: the implementation's answer depends on what it was asked before (a violation).
+	selfCheckOps := selfCheck(t, rep, chains[0], "")
 
 	// ---- run
 	var next int64 = -1
@@ -1020,6 +1020,13 @@ func TestVerifC16(t *testing.T) {
 		}
 		return fmt.Sprintf("deadline hit: %d of %d single-mutation items, %d of %d wire-layout chunks and %d of %d pair items done", doneSingles, singles, doneWire, wireItems, donePairs, npairs)
 	}())
+	rep.Set("decode_history", map[string]any{
+		"per_chain": histTotals, "ordered_pairs": histPairs, "decodes": histDecodes,
+		"setting":    "one goroutine locked to its thread, GOMAXPROCS(1), GC off; d2 observed fresh (after two forced GC cycles) and then right after every d1, each pair repeated",
+		"d1":         "per honest header: valid+dangling tag byte, valid minus last byte, DAH only, commit only, validator set only, raw header missing, truncated after header / commit / validator set, valid+truncated commit field, valid+commit tag with varint wire type (all rejected); canonical, canonical+unknown field (accepted)",
+		"d2":         "per honest header: canonical encoding; encoding with the header / commit / validator set / DAH field missing",
+		"self_check": fmt.Sprintf("%d operators evaluated twice in sequence and once in isolation (after two GC cycles) with identical observations", selfCheckOps),
+	})
 	rep.Set("wire_encodings", map[string]any{
 		"extras_per_header": wireExtras,
 		"layout_families": map[bool]string{
@@ -1036,6 +1043,7 @@ func TestVerifC16(t *testing.T) {
 		"distinct_decoded_headers_run_through_all_rules":      total.wireHeadersEvaluated,
 	})
 	rep.Set("rules_applied", map[string]string{
+		"decode history (ordered pairs of decodes)":         "the observation of d2 (rejected / fingerprint, Validate verdict, Hash of the decoded header) right after d1 equals the observation of d2 in a fresh state",
 		"non-canonical wire layouts of every honest header": "MsgID(bytes) returns; if the bytes decode: MsgID(bytes) == MsgID(MarshalBinary(decoded)); each distinct decoded header: Validate vs predicate, binary re-encoding (verdict, Hash, transportability), MsgID per block, Verify of it and of its canonical re-encoding against every honest header as trusted",
 		"single mutations x full repair ladder":             "Validate vs predicate; binary, JSON and binary->JSON->binary re-encoding (verdict, Hash, transportability); MsgID per block; Verify of the case and of its binary re-encoding against every honest header as trusted",
 		"operator pairs x short repair ladder (none, fixraw+fixcommit, fixraw+fixcommit+resign(all))": map[bool]string{
@@ -1105,6 +1113,65 @@ func TestVerifC16(t *testing.T) {
 	}
 }
 
+// selfCheck evaluates operators of the first header of ch in sequence: each twice in a row and once in
+// isolation (after two GC cycles). upTo == "" means every 7th operator; otherwise the same sequence is
+// followed up to and including the named operator (replay). Returns the number of operators checked.
+func selfCheck(t *testing.T, rep *vx.Report, ch *chain, upTo string) int {
+	selfCheckOps := 0
+	tr := make([]*EH, len(ch.honest))
+	for i, h := range ch.honest {
+		tr[i] = wireCopy(h)
+	}
+	c := &mctx{ch: ch, idx: 0, nbs: neighbours(ch, 0)}
+	observe := func(o op) string {
+		h, ok := applyOps(ch.honest[0], o)
+		if !ok {
+			return "inapplicable"
+		}
+		var sb strings.Builder
+		ec := &evalCtx{st: newStats(), trusted: tr, honFP: fingerprint(ch.honest[0]), summary: &sb}
+		evaluate(ec, caseID{Chain: ch.cfg.Name, Idx: 0, Ops: []string{o.name}, Repair: "none"}, h, nil)
+		return sb.String()
+	}
+	isolated := func(o op) string {
+		runtime.GC()
+		runtime.GC()
+		return observe(o)
+	}
+	var preceding []string
+	for n, o := range primaries(c) {
+		if n%7 != 0 {
+			continue
+		}
+		selfCheckOps++
+		obs0, obs1 := observe(o), observe(o)
+		iso := isolated(o)
+		if obs0 != obs1 || obs0 != iso {
+			isos := []string{iso}
+			agree := true
+			for k := 0; k < 4; k++ {
+				x := isolated(o)
+				agree = agree && x == iso
+				isos = append(isos, x)
+			}
+			if !agree {
+				rep.Infra("NONDETERMINISM: operator " + o.name + " observed differently on isolated executions")
+				t.Fatalf("nondeterminism (isolated runs disagree):\n%s", strings.Join(isos, "\n---\n"))
+			}
+			id := caseID{Chain: ch.cfg.Name, Idx: 0, Ops: []string{o.name}, Repair: "none"}
+			rep.Violation("C16/verdict-depends-on-history",
+				fmt.Sprintf("%s: 5 isolated evaluations (each after two GC cycles) agree with each other, but the evaluation in the context of the preceding %d operators differs: the verdicts/decodings depend on what was validated or decoded before. First differing observation line - in context (1st run): [%s]; in context (2nd run): [%s]; isolated: [%s]",
+					id, len(preceding), firstDiff(iso, obs0), firstDiff(iso, obs1), firstDiff(obs0, iso)),
+				map[string]any{"case": id, "tier": curTier, "preceding": append([]string{}, preceding...), "in_context": []string{obs0, obs1}, "isolated": iso})
+		}
+		preceding = append(preceding, o.name)
+		if upTo != "" && o.name == upTo {
+			break
+		}
+	}
+	return selfCheckOps
+}
+
 // rebuild reconstructs a case from its name.
 func rebuild(ch *chain, id caseID) (*EH, error) {
 	if id.Idx < 0 || id.Idx >= len(ch.honest) {
@@ -1144,13 +1211,76 @@ func replayC16(t *testing.T, rep *vx.Report, path string) {
 	var doc struct {
 		Signature string `json:"signature"`
 		Replay    struct {
-			Case  caseID  `json:"case"`
-			Other *caseID `json:"other"`
-			Tier  string  `json:"tier"`
+			Case      caseID    `json:"case"`
+			Other     *caseID   `json:"other"`
+			Tier      string    `json:"tier"`
+			History   *histCase `json:"history"`
+			Preceding []string  `json:"preceding"`
 		} `json:"replay"`
 	}
 	if err := json.Unmarshal(b, &doc); err != nil {
 		t.Fatalf("replay: %v", err)
+	}
+	chainFor := func(name string) *chain {
+		for _, tier := range []string{doc.Replay.Tier, rep.Tier, "quick", "thorough"} {
+			for _, cfg := range chainCfgs(tier) {
+				if cfg.Name == name {
+					return buildChain(cfg)
+				}
+			}
+		}
+		return nil
+	}
+	if hc := doc.Replay.History; hc != nil { // an ordered pair of decodes
+		ch := chainFor(hc.Chain)
+		if ch == nil {
+			t.Fatalf("replay: unknown chain %q", hc.Chain)
+		}
+		hits := 0
+		for run := 0; run < 5; run++ {
+			n := 0
+			runHistory(ch, 16, hc, func(sig, what string, _ any) {
+				if n == 0 && run == 0 {
+					fmt.Printf("REPLAY-VIOLATION %s: %s\n", sig, what)
+				}
+				n++
+			})
+			if n > 0 {
+				hits++
+			}
+		}
+		rep.Count(5, 2, 1, 5)
+		rep.AddSample(hc)
+		rep.SetExhaustive(false)
+		if hits > 0 {
+			fmt.Printf("REPLAY-RESULT violation reproduced %d/5: [%s]\n", hits, doc.Signature)
+			fmt.Printf("VERIF-NOTE REPLAY-RESULT violation reproduced %d/5: [%s]\n", hits, doc.Signature)
+			rep.Violation(doc.Signature, "reproduced from replay file", doc.Replay)
+		} else {
+			fmt.Println("REPLAY-RESULT no violation")
+			fmt.Println("VERIF-NOTE REPLAY-RESULT no violation")
+		}
+		if rep.Finish() > 0 {
+			t.Fail()
+		}
+		return
+	}
+	if doc.Signature == "C16/verdict-depends-on-history" && len(doc.Replay.Case.Ops) == 1 { // the self-check sequence up to that operator
+		ch := chainFor(doc.Replay.Case.Chain)
+		if ch == nil {
+			t.Fatalf("replay: unknown chain %q", doc.Replay.Case.Chain)
+		}
+		selfCheck(t, rep, ch, doc.Replay.Case.Ops[0])
+		rep.Count(1, 2, 1, 1)
+		rep.AddSample(doc.Replay.Case)
+		rep.SetExhaustive(false)
+		if n := rep.Finish(); n > 0 {
+			fmt.Println("VERIF-NOTE REPLAY-RESULT violation reproduced")
+			t.Fail()
+		} else {
+			fmt.Println("VERIF-NOTE REPLAY-RESULT no violation")
+		}
+		return
 	}
 	id := doc.Replay.Case
 	// the thorough tier has one more height; a case names its chain by configuration name, so try the tier
